@@ -1409,6 +1409,7 @@ func main() {
 	verdicts := map[string]int{}
 	lines := 0
 	maxRot := 10
+	insGroups := 0
 	if a.Tier == "thorough" {
 		maxRot = 40
 	}
@@ -1440,7 +1441,9 @@ func main() {
 		r := root.Fork()
 		var base *node
 		class := ""
-		switch group % 19 {
+		switch group % 20 {
+		case 19:
+			class, base = "inscribed", nil
 		case 18:
 			class, base = "huge_polys", nil
 		case 16:
@@ -1478,6 +1481,22 @@ func main() {
 			}
 			continue
 		}
+		if class == "inscribed" {
+			// systematic member orders / ring starts / extra members, then the standard changes
+			b, vs := genInscribed(r, insGroups)
+			insGroups++
+			emit(gid, 0, class, "base", b)
+			k := 1
+			for _, v := range vs {
+				emit(gid, k, class, v.name, v.n)
+				k++
+			}
+			for _, v := range variants(b, r, 4) {
+				emit(gid, k, class, v.name, v.n)
+				k++
+			}
+			continue
+		}
 		if class == "special_pairs" {
 			// one case per (pair of special values, vertex position); no representation changes
 			for k := 0; k < 14; k++ {
@@ -1491,7 +1510,7 @@ func main() {
 		}
 	}
 	stats := map[string]interface{}{"classes_groups": classes, "variants": variantsHist, "kinds": kinds,
-		"class_verdicts": verdicts, "lines": lines}
+		"class_verdicts": verdicts, "lines": lines, "inscribed_templates": insTemplatesHist}
 	js, _ := json.Marshal(stats)
 	fmt.Fprintf(w, "#GEN\t%s\n", js)
 }
